@@ -711,3 +711,14 @@ func specHeaderAt(line []byte, c, ks, ke, vs, ve int) bool {
 //@   call httphead.ScanTokens havoc
 //@   ensures [copy] freshStr(ret)
 //@   ensures [none] !ok ==> len(ret) == 0
+
+// RSV bit packing (C13): r1 is the most significant of the three bits.
+//@ func Rsv
+//@   props C13
+//@   ensures [bits] rsv == byte(iteInt(r1, 4, 0))|byte(iteInt(r2, 2, 0))|byte(iteInt(r3, 1, 0))
+//@   assigns nothing
+
+//@ func RsvBits
+//@   props C13
+//@   ensures [bits] r1 == (rsv&4 != 0) && r2 == (rsv&2 != 0) && r3 == (rsv&1 != 0)
+//@   assigns nothing
